@@ -60,6 +60,39 @@ func (c *Case) Execute() (ex Exec) {
 			ex.Pos = append([]harfbuzz.GlyphPosition(nil), buf.Pos...)
 			ex.BufDir = buf.Props.Direction
 		})
+		if L := len(c.Text); c.AltClusters != 0 && ex.Panic == nil && c.RunStart == 0 && c.RunEnd == L {
+			ex.AltRan = true
+			ex.AltPanic, ex.AltWhere = vrun.Catch(func() {
+				buf := harfbuzz.NewBuffer()
+				for i, r := range c.Text {
+					buf.AddRune(r, altCluster(c.AltClusters, i, L))
+				}
+				buf.Props.Direction = c.direction().Harfbuzz()
+				buf.Props.Script = language.Script(c.Script)
+				buf.Props.Language = language.NewLanguage(c.Lang)
+				buf.Flags = harfbuzz.ShappingOptions(c.Flags)
+				buf.ClusterLevel = harfbuzz.ClusterLevel(c.ClusterLevel)
+				ft := harfbuzz.NewFont(face)
+				ft.XScale = int32(fixed.Int26_6(c.Size).Ceil()) << 6
+				ft.YScale = ft.XScale
+				feats := c.hbFeatures()
+				for i := range feats {
+					if feats[i].Start == harfbuzz.FeatureGlobalStart && feats[i].End == harfbuzz.FeatureGlobalEnd {
+						continue
+					}
+					switch c.AltClusters {
+					case 1, 2:
+						feats[i].Start, feats[i].End = altCluster(c.AltClusters, feats[i].Start, L), altCluster(c.AltClusters, feats[i].End, L)
+					default:
+						// no order-preserving relabeling: global features only
+						feats[i].Start, feats[i].End = harfbuzz.FeatureGlobalStart, harfbuzz.FeatureGlobalEnd
+					}
+				}
+				buf.Shape(ft, feats)
+				ex.AltInfo = append([]harfbuzz.GlyphInfo(nil), buf.Info...)
+				ex.AltPos = append([]harfbuzz.GlyphPosition(nil), buf.Pos...)
+			})
+		}
 	}
 	ex.CPU = vrun.ThreadCPU() - cpu0
 	ex.Alloc = vrun.AllocBytes() - al0
@@ -113,6 +146,43 @@ func JudgeC01(c *Case, ex *Exec) []Finding {
 		}
 		if s.LenInfo > lenBudget {
 			add("length-budget", "at stage %q the buffer holds %d glyphs for a run of %d runes (budget %d)", s.Stage, s.LenInfo, n, lenBudget)
+		}
+	}
+	if c.Buffer && ex.AltRan {
+		// the same text added rune by rune with cluster values of the caller's choosing
+		switch {
+		case ex.AltPanic != nil:
+			add("panic/"+vrun.TopFrame(ex.AltWhere), "shaping a buffer filled with AddRune (cluster mode %d) panicked: %v at %s", c.AltClusters, ex.AltPanic, ex.AltWhere)
+		case len(ex.AltInfo) != len(ex.AltPos):
+			add("info-pos-desync", "Buffer.Shape (AddRune, cluster mode %d) returned %d infos and %d positions", c.AltClusters, len(ex.AltInfo), len(ex.AltPos))
+		case c.AltClusters <= 2:
+			// an order-preserving relabeling of the clusters relabels the output and changes nothing else
+			same := len(ex.AltInfo) == len(ex.Info)
+			at := -1
+			for i := 0; same && i < len(ex.Info); i++ {
+				if ex.AltInfo[i].Glyph != ex.Info[i].Glyph || ex.AltPos[i] != ex.Pos[i] ||
+					ex.AltInfo[i].Cluster != altCluster(c.AltClusters, ex.Info[i].Cluster, L) ||
+					ex.AltInfo[i].Mask&altFlags != ex.Info[i].Mask&altFlags {
+					same, at = false, i
+				}
+			}
+			if !same {
+				add("addrune-differs", "AddRunes(text,0,%d) gives %d glyphs, AddRune with clusters i->%d gives %d glyphs; first difference at glyph %d", L, len(ex.Info), altCluster(c.AltClusters, 1, L)-altCluster(c.AltClusters, 0, L), len(ex.AltInfo), at)
+			}
+		default:
+			ok := map[int]bool{}
+			for i := range c.Text {
+				ok[altCluster(c.AltClusters, i, L)] = true
+			}
+			for i, gi := range ex.AltInfo {
+				if !ok[gi.Cluster] {
+					add("cluster-range", "AddRune cluster mode %d: glyph %d has cluster %d, which no input rune carried", c.AltClusters, i, gi.Cluster)
+					break
+				}
+			}
+			if len(ex.AltInfo) > lenBudget {
+				add("length-budget", "%d glyphs for an item of %d runes (AddRune)", len(ex.AltInfo), n)
+			}
 		}
 	}
 	if c.Buffer {
@@ -504,3 +574,6 @@ func copyOut(o shaping.Output) shaping.Output {
 	c.Glyphs = append([]shaping.Glyph(nil), o.Glyphs...)
 	return c
 }
+
+// altFlags: the glyph flags Buffer.Shape reports to the caller.
+const altFlags = harfbuzz.GlyphUnsafeToBreak | harfbuzz.GlyphUnsafeToConcat | harfbuzz.GlyphSafeToInsertTatweel
